@@ -23,6 +23,12 @@ RULE = ('cases = (directory of 0..30 well-formed PEL files with distinct entry i
         'distinct by (directory bytes, options)')
 
 
+# a message registry (installed like C03's): two entries whose messages are built from the SRC's own hex words
+REG = [{'SRC': {'ReasonCode': '0x8D34', 'Words6To9': {'6': {'Description': 'first word', 'AdditionalDataPropSource': 'W6'}}},
+        'Documentation': {'Message': 'code %1 and %2', 'MessageArgSources': ['SRCWord6', 'SRCWord9']}},
+       {'SRC': {'ReasonCode': '0xAB34', 'Type': 'BC'}, 'Documentation': {'Message': 'hostboot %1', 'MessageArgSources': ['SRCWord7']}}]
+
+
 def run(tier, seed):
     ck = Check('C08', tier, seed)
     ck.proof = common.build_and_audit('C08', thorough=(tier == 'thorough'))
@@ -32,12 +38,17 @@ def run(tier, seed):
     thorough = tier == 'thorough'
     # parser modules of creator x that fail in every way: a PEL that uses them is well-formed and appears in all three modes alike
     env = apel.PluginEnv(allow=True, ud={'x1111': ('echo',), 'x2222': ('raises', 'boom'), 'x3333': ('none',), 'x8888': ('import_raises', 'load failure'),
-                                         'x5a5a': ('raises', ''), 'x6b6b': ('release_raises', 'done')}).install()
+                                         'x5a5a': ('raises', ''), 'x6b6b': ('release_raises', 'done')}, registry=REG).install()
     try:
         cases = []
         for _ in range(120 if thorough else 30):
             d0 = clirun.gen_wf_dir(rng, rng.choice([0, 1, 2, 5, 8, 12, 30 if thorough else 10]))
             for n, p in d0:
+                if rng.random() < 0.3:
+                    # a reference code the message registry knows: the --list entry then carries a "Message" member (= the full decode's)
+                    for sec in p['sections']:
+                        if sec['kind'] == 'src' and sec['primary']:
+                            sec['src']['ascii'] = rng.choice([b'BD128D34', b'BC12AB34', b'BD008D34']).ljust(32, b' ')
                 if rng.random() < 0.2:
                     # a large section AHEAD of the primary SRC, or a primary SRC with many long callouts: the summary lies beyond the first kilobytes
                     if rng.random() < 0.5:
@@ -90,6 +101,7 @@ def run(tier, seed):
             try:
                 count = json.loads(outs['count'][0])['Number of PELs found']
                 lst = json.loads(outs['list'][0], object_pairs_hook=jsonio.pairs_hook)
+                ck.count('list entries with a registry "Message" member', outs['list'][0].count('"Message":'))
                 alld = json.loads(outs['all'][0], object_pairs_hook=jsonio.pairs_hook)
             except Exception as e:  # noqa
                 ck.fail('a directory mode did not print a JSON document', rp | {'error': repr(e), 'stdout': {k: v[0][:200] for k, v in outs.items()}}, 'not_json')
